@@ -7,6 +7,7 @@ from .. import refmodel as rm
 from .. import spec as sp
 
 ID = 'C04'
+ANCHOR_FILES = ['solver/lp_solver.py', 'solver/options_parser.py']
 LEVEL = 'exploration'
 RULE = ('2-4 criteria at distinct positions in 1..9 (gaps, flags in random permutation) on random small specs chosen so that '
         'criteria conflict; monitors: (i) value vector of the printed matching = reference lexicographic optimum, (ii) trace '
